@@ -217,7 +217,12 @@ func (sess *hopSession) startCodex(t1, t2 *tubes.Reliable) {
 		stdinTube = t2
 		stdoutTube = t1
 	}
-	cmd, termEnv, shell, size, _ := codex.GetCmd(stdinTube)
+	cmd, termEnv, shell, size, err := codex.GetCmd(stdinTube)
+	if err != nil {
+		logrus.Errorf("could not read the exec request: %v", err)
+		codex.SendFailure(stdoutTube, err)
+		return
+	}
 	principalSess := sess.ID
 	// if using an authgrant, check that the cmd is authorized
 	if sess.usingAuthGrant {
@@ -233,7 +238,6 @@ func (sess *hopSession) startCodex(t1, t2 *tubes.Reliable) {
 		"command": cmd,
 		"shell":   shell,
 	}).Info("starting code execution")
-	var err error
 	user, err := thunks.LookupUser(sess.user)
 	if err != nil {
 		err := errors.New("could not find entry for user " + sess.user)
